@@ -187,6 +187,15 @@ class Ref:
             return "ok"
         if k == "heap":
             self.heap, self.heap_lt = [], lt_of(a[0]); return "ok"
+        if k == "heapfrom":
+            self.heap, self.heap_lt = [], lt_of(a[0])
+            vals, kk = [int(v) for v in a[1]], int(a[2])
+            for v in vals[:kk]:
+                i = len(self.heap)
+                while i > 0 and self.heap_lt(v, self.heap[i - 1]):
+                    i -= 1
+                self.heap.insert(i, v)
+            return "ok" if kk >= len(vals) else "err"
         if k == "hpush":
             v = int(a[0]); i = len(self.heap)
             while i > 0 and self.heap_lt(v, self.heap[i - 1]):
